@@ -26,6 +26,8 @@ def shapes(t):
         out.append(dict(kind='fixed', method=m, target=target, ctype=ctype, bcap=2))
     for dp in MULTIPART_DISPOSITION_PREFIXES:
         for ln_ in ((2, 2), (0, 1)): out.append(dict(kind='multipart', disp_prefix=dp, lens=ln_))
+    # storage faults: any read of an existing file may fail (the error responses built on those paths carry the headers too)
+    for t_ in ('/a', '/', '/style.css', '/a/'): out.append(dict(kind='iofault', target=t_))
     return out
 
 
@@ -50,6 +52,8 @@ def build_request(p, cons):
         return S(head + '\r\n').concat(b), {'b': b}
     if k == 'multipart':
         return multipart_request(cons, p['disp_prefix'], lens=tuple(p.get('lens', (2, 2))))
+    if k == 'iofault':
+        return S('GET %s HTTP/1.1\r\nOrigin: http://o\r\n\r\n' % p['target']), {}
     raise ValueError(k)
 
 
@@ -104,9 +108,11 @@ def case(prog, params):
                 fsd = []
                 for e in o.world['fs']['entries']:
                     fsd.append((model_bytes(m, e.path).decode('latin1'), m.eval(e.kind, model_completion=True).as_long(), model_bytes(m, e.content).hex()))
-                res['violations'].append({'key': 'C10:%s:status-%s' % (label, code), 'text': 'response %s: %s for request %r' % (code, label, wreq),
-                                          'witness': {'request': wreq.hex(), 'fs': fsd, 'kind': params['kind'], 'label': label}})
-    run_process(ex, reqb, cons, term, stream=stream, app_mode='abstract-fail' if params['kind'] == 'apperr' else 'real')
+                iof = [model_bytes(m, p_).decode('latin1') for bv_, p_ in o.world.get('fs_iofail', ()) if z3.is_true(m.eval(bv_, model_completion=True))]
+                res['violations'].append({'key': 'C10:%s:status-%s' % (label, code), 'text': 'response %s: %s for request %r%s' % (code, label, wreq, (' with read errors on %r' % iof) if iof else ''),
+                                          'witness': {'request': wreq.hex(), 'fs': fsd, 'kind': params['kind'], 'label': label, 'iofail': iof}})
+    run_process(ex, reqb, cons, term, stream=stream, app_mode='abstract-fail' if params['kind'] == 'apperr' else 'real',
+                fs=ENV.new_fs(content_cap=2, read_may_fail=True) if params['kind'] == 'iofault' else None)
     res.update(H.ex_summary(ex))
     res['samples'].append({'case': params, 'statuses': res['statuses'], 'kinds': res['kinds']})
     return res
@@ -130,6 +136,16 @@ def native_response(chk, w, extra=()):
                 elif kind == 1:
                     os.makedirs(os.path.dirname(real), exist_ok=True)
                     if not os.path.isdir(real): open(real, 'wb').write(bytes.fromhex(content))
+            except OSError: pass
+        for path in w.get('iofail', []):
+            # a regular file whose read fails: /proc/self/mem reads with EIO
+            rel = path[len('/r'):] if path.startswith('/r') else '/' + path
+            real = posixpath.normpath(root + rel)
+            if not real.startswith(root): continue
+            try:
+                if os.path.lexists(real) and not os.path.isdir(real): os.remove(real)
+                os.makedirs(os.path.dirname(real), exist_ok=True)
+                if not os.path.lexists(real): os.symlink('/proc/self/mem', real)
             except OSError: pass
         for real, tgt in links:
             try:
